@@ -56,12 +56,8 @@ theorem C05.gen_version_port_classes (major minor : Nat) (srv : Bool) (pid : Opt
     Gen.CompositeType.check_version_and_port major minor srv pid =
       if versionOk major minor = true then
         (if ∀ p, pid = some p → (if srv then p ≤ 511 else p ≤ 8191) then .ok () else .error (.other "InvalidFixedPortIDError"))
-      else .error (.other "InvalidVersionError") := by
-  simp only [Gen.CompositeType.check_version_and_port, versionOk]
-  by_cases h1 : major ≤ 255 <;> by_cases h2 : minor ≤ 255 <;> by_cases h3 : major + minor > 0 <;>
-    cases pid <;> cases srv <;> simp [h1, h2, h3]
-  · rename_i p; by_cases hp : p ≤ 8191 <;> simp [hp]
-  · rename_i p; by_cases hp : p ≤ 511 <;> simp [hp]
+      else .error (.other "InvalidVersionError") :=
+  version_port_classes major minor srv pid
 
 example : Gen.CompositeType.check_version_and_port 0 0 false none = .error (.other "InvalidVersionError") ∧
     Gen.CompositeType.check_version_and_port 256 0 false none = .error (.other "InvalidVersionError") ∧
